@@ -1379,7 +1379,25 @@ def copies_execute(case):
                          "after %s, changing tree %d (%s) also changed tree %d (%s): %s"
                          % (what, trees.index(side), kinds[trees.index(side)], k, kinds[k], x))
 
+    def shallow_copies():
+        """Deliberate: every case duplicates (copy.copy, Component.__copy__) one component WITH linked dimensions and one without;
+        do_step compares the duplicate dimension by dimension (resolved values) and parameter by parameter with the original."""
+        from armi.reactor.components import component as compmod
+
+        comps = [i for i in range(len(first.objs)) if first.level[i] == "component"]
+        linked = [i for i in comps if any(isinstance(first.objs[i].p[d], compmod._DimensionLink) for d in first.objs[i].DIMENSION_NAMES)]
+        plain = [i for i in comps if i not in linked]
+        k = case["steps"][0]["obj"]
+        for group, label in ((linked, "with-linked-dimensions"), (plain, "without-links")):
+            if not group:
+                continue
+            i = group[k % len(group)]
+            out.label("copy.copy:" + label)
+            do_step({"how": "copy", "proto": 2, "src": 0, "level": "component", "obj": comps.index(i), "side": "copy",
+                     "mutate": case["steps"][0]["mutate"][:1]})
+
     try:
+        shallow_copies()
         for n, step in enumerate(steps):
             if n == load_at:
                 load_at = None
